@@ -178,7 +178,7 @@ func trySplit(o *Obl, file string, timeout int) {
 		decls = []string{}
 	}
 	parts := splitGoal(sk)
-	if len(parts) > 60 {
+	if len(parts) > 150 {
 		return
 	}
 	if len(parts) < 2 {
